@@ -45,6 +45,13 @@ class FakeOP:
         self.codes[code] = flow
         return code
 
+    def at_for(self, flow):
+        """the access token the authorization endpoint hands out for this flow (response types with `token`)"""
+        self.n += 1
+        at = f"aat-{WHO[self.iss]}-{self.n}"
+        self.ats[at] = flow
+        return at
+
     def idtoken(self, nonce, sub, at=None, code=None):
         from idpyoidc.message.oidc import left_hash
         cl = {"iss": self.iss, "sub": sub, "aud": [CID], "exp": clock.CLOCK.t + 600, "iat": clock.CLOCK.t}
@@ -129,7 +136,7 @@ def gen(rng, n):
     for _ in range(n):
         k = rng.choice(["begin", "begin", "authz", "authz", "authz", "tokens", "tokens", "userinfo", "finalize"])
         if k == "begin" or nflows == 0:
-            ops.append(["begin", rng.randrange(2), rng.choice(USERS), rng.choice(["code", "code", "code id_token"])]); nflows += 1
+            ops.append(["begin", rng.randrange(2), rng.choice(USERS), rng.choice(["code", "code", "code id_token", "code id_token token", "code id_token token"])]); nflows += 1
             continue
         f = rng.randrange(nflows)
         other = rng.randrange(nflows)
@@ -140,6 +147,10 @@ def gen(rng, n):
                             "iss": rng.choice([None, "own", "own", "other"]) if cross else rng.choice([None, "own"]),
                             "cid": rng.choice([None, "own", "other"]) if cross else None,
                             "idt_of": (other if cross and rng.random() < 0.5 else f),
+                            # (response types with `token`) whose access token travels beside the code and the ID token
+                            "at_of": (other if cross and rng.random() < 0.6 else "idt"),
+                            # a response parameter `aud` (the OIDC response class looks at one): naming this client, or somebody else
+                            "resp_aud": rng.choice([None, None, None, "own", "other"]) if cross else rng.choice([None, None, None, "own"]),
                             # a parameter the response has no business with: the nonce of another flow / of the attacker's choosing
                             "resp_nonce_of": rng.choice([None, None, other, "attacker"]) if cross else None}])
         elif k == "tokens":
@@ -217,6 +228,14 @@ def corpus():
         {"t": "hist", "ops": [["begin", 0, "alice", "code"], ["begin", 0, "bob", "code"], ["authz", f0],
                               ["tokens", {"flow": 0, "idt_of": 0, "idt": True, "drop_nonce": False, "sub": "nonce-of", "sub_of": 1}],
                               ["authz", f0], ["tokens", {"flow": 0, "idt_of": 1, "idt": True, "drop_nonce": False, "sub": None, "sub_of": 1}]]},
+        # F-C09-c: a response parameter `aud` naming somebody else, beside another flow's ID token (hybrid)
+        {"t": "hist", "ops": [["begin", 0, "alice", "code id_token"], ["begin", 0, "bob", "code id_token"],
+                              ["authz", dict(f0, state_of=1, code_of=0, idt_of=0, resp_aud="other")], ["authz", dict(f0, state_of=1, code_of=1, idt_of=1, resp_aud="other")],
+                              ["authz", dict(f0, state_of=1, code_of=1, idt_of=1, resp_aud="own")]]},
+        # hybrid with `token`: state, code and ID token of one flow, the access token (or the code) of another; then the genuine response
+        {"t": "hist", "ops": [["begin", 0, "alice", "code id_token token"], ["begin", 0, "bob", "code id_token token"],
+                              ["authz", dict(f0, state_of=1, code_of=1, idt_of=1, at_of=0)], ["authz", dict(f0, state_of=1, code_of=0, idt_of=1, at_of="idt")],
+                              ["authz", dict(f0, state_of=1, code_of=1, idt_of=1, at_of="idt")], ["userinfo", {"flow": 1, "user_of": 1}]]},
         {"t": "hist", "ops": [["begin", 0, "alice", "code"], ["begin", 1, "carol", "code"], ["authz", dict(f0, to="other")], ["authz", dict(f0, iss="other")],
                               ["authz", dict(f0, state="unknown")], ["authz", dict(f0, code_of=1)], ["tokens", {"flow": 0, "idt_of": 0, "idt": True, "drop_nonce": False, "sub": None, "sub_of": 0}]]},
     ]
@@ -242,6 +261,7 @@ def impl(c):
                 q = {k: v[0] for k, v in parse_qs(urlsplit(url).query).items()}
                 fl = {"iss": iss, "user": o[2], "rt": o[3], "state": q["state"], "nonce": q.get("nonce")}
                 fl["code"] = W.ops[iss].code_for(fl)
+                fl["at"] = W.ops[iss].at_for(fl) if "token" in o[3].split() else None
                 W.flows.append(fl)
                 rec.update(r="ok", model=["begin", iss, fl["state"], fl["nonce"]])
             elif o[0] in ("authz", "finalize"):
@@ -258,12 +278,19 @@ def impl(c):
                     resp["client_id"] = CID if a["cid"] == "own" else "client_2"
                 if a.get("resp_nonce_of") is not None:
                     resp["nonce"] = "attacker-chosen-nonce" if a["resp_nonce_of"] == "attacker" else W.flows[a["resp_nonce_of"]]["nonce"]
+                if a.get("resp_aud"):
+                    resp["aud"] = CID if a["resp_aud"] == "own" else "somebody-else"
                 idt = None
-                if fs["rt"] == "code id_token":
-                    # hybrid: the issuer the response is delivered for signs an ID token for flow `idt_of`
-                    resp["id_token"] = W.ops[to].idtoken(fi["nonce"], "sub-" + fi["user"], code=fc["code"])
-                    idt = [fi["nonce"], "sub-" + fi["user"]]
-                rec["model"] = ["authz", to, st, fc["code"], resp.get("iss"), resp.get("client_id"), idt]
+                if "id_token" in fs["rt"].split():
+                    # hybrid: the issuer the response is delivered for signs an ID token for flow `idt_of` — a genuine one: its c_hash / at_hash
+                    # are those of THAT flow's code and access token
+                    if "token" in fs["rt"].split():
+                        fa = fi if a.get("at_of", "idt") == "idt" else W.flows[a["at_of"]]
+                        if fa.get("at"):
+                            resp["access_token"] = fa["at"]; resp["token_type"] = "Bearer"
+                    resp["id_token"] = W.ops[to].idtoken(fi["nonce"], "sub-" + fi["user"], code=fi["code"], at=fi.get("at"))
+                    idt = [fi["nonce"], "sub-" + fi["user"], fi.get("at"), fi["code"]]
+                rec["model"] = ["authz", to, st, fc["code"], resp.get("iss"), resp.get("client_id"), idt, resp.get("access_token"), resp.get("aud")]
                 if o[0] == "authz":
                     r = W.rph.finalize_auth(None, to, resp)
                     rec["r"] = "ok"
@@ -318,7 +345,9 @@ def _opt(x):
 
 
 def _idt(i):
-    return "none" if i is None else _opt(i[0]) + "|" + enc_str(i[1])
+    if i is None:
+        return "none"
+    return _opt(i[0]) + "|" + enc_str(i[1]) + ("|" + _opt(i[2]) + "|" + _opt(i[3]) if len(i) > 2 else "")
 
 
 def model_lines(c, obs):
@@ -331,7 +360,7 @@ def model_lines(c, obs):
         if m[0] == "begin":
             lines.append("\t".join(["rps", "op", enc_str(m[1]), "begin", enc_str(m[2]), enc_str(m[3] or "")]))
         elif m[0] == "authz":
-            lines.append("\t".join(["rps", "op", enc_str(m[1]), "authz", _opt(m[2]), _opt(m[3]), _opt(m[4]), _opt(m[5]), _idt(m[6])]))
+            lines.append("\t".join(["rps", "op", enc_str(m[1]), "authz", _opt(m[2]), _opt(m[3]), _opt(m[4]), _opt(m[5]), _idt(m[6])] + ([_opt(m[7])] if len(m) > 7 else []) + ([_opt(m[8])] if len(m) > 8 else [])))
         elif m[0] == "token":
             lines.append("\t".join(["rps", "op", enc_str(m[1]), "token", enc_str(m[2]), enc_str(m[3]), _idt(m[4])]))
         else:
@@ -423,6 +452,12 @@ def oracle(c, obs):
         o = c["ops"][i]
         if o[0] in ("authz", "finalize") and st["r"] == "ok" and (o[1]["to"] == "other" or o[1]["state"] != "own" or o[1]["iss"] == "other" or o[1]["cid"] == "other"):
             v.append({"cls": "cross-wired-authorization-response-accepted", "step": i, "what": {k: o[1][k] for k in ("to", "state", "iss", "cid")}})
+        if o[0] in ("authz", "finalize") and st["r"] == "ok" and st["model"] and st["model"][6] is not None and o[1]["idt_of"] != o[1]["state_of"]:
+            v.append({"cls": "response-with-another-flows-id-token-accepted", "step": i, "resp_aud": o[1].get("resp_aud")})
+        if o[0] in ("authz", "finalize") and st["r"] == "ok" and st["model"] and len(st["model"]) > 7 and st["model"][7] is not None:
+            at_flow = o[1]["idt_of"] if o[1].get("at_of", "idt") == "idt" else o[1]["at_of"]
+            if at_flow != o[1]["state_of"]:
+                v.append({"cls": "cross-wired-authorization-response-accepted", "step": i, "what": "access token of another flow beside this flow's state"})
         if v:
             break
     return v[:1]
